@@ -5,7 +5,7 @@
   operations, every element at most `B` bytes); `Good c B r` is what one opcode arm may produce from
   such a state: a state within the slightly larger bounds `Lim`, or an EvalScriptError /
   CScriptInvalidError whose captured state is within `Lim`, and a foreign Python exception only
-  when `inIdx` is negative (known finding D7).
+  when `RawSignatureHash` raised it (`Ctx.Raises`; known finding D7).
 -/
 import BtcVerif.Proofs.ScriptEvalBasic
 
@@ -22,12 +22,18 @@ def Lim (B : Nat) (s a : List Bytes) (n : Nat) : Prop :=
 def Pre (B : Nat) (st : St) : Prop :=
   st.stack.length + st.alt.length ≤ 1000 ∧ st.nOpCount ≤ 201 ∧ ElemsLe B st.stack ∧ ElemsLe B st.alt
 
+/-- `RawSignatureHash` lets an exception of class `cls` through for some script code of at most
+    10 000 bytes (longer ones never reach it: `_EvalScript` refuses the script) and some hash type byte -/
+def Ctx.Raises (c : Ctx) (cls : String) : Prop :=
+  ∃ script ht x, script.length ≤ MAX_SCRIPT_SIZE ∧ ht < 256 ∧
+    c.sigHash script ht = .error x ∧ x ≠ .invalidscript ∧ cls = excClass x
+
 def Good (c : Ctx) (B : Nat) : M St → Prop
   | .ok st' => Lim B st'.stack st'.alt st'.nOpCount ∧ st'.nOpCount ≤ 201
   | .error (.eval cap) => Lim B cap.stack cap.altstack cap.nOpCount
   | .error (.invalid cap) => Lim B cap.stack cap.altstack cap.nOpCount
   | .error .verify => False
-  | .error (.py _) => c.inIdx < 0
+  | .error (.py cls) => c.Raises cls
 
 /-- `OPCODE_NAMES[sop]` hits -/
 abbrev Named (sop : Nat) : Prop := (opcodeName? sop).isSome = true
